@@ -366,7 +366,7 @@ def make_interference(ctx_holder, src_refs, new_name='feature/third-party'):
         elif kind == 2:
             for r in src_refs:
                 if r in repo.remote:
-                    repo.remote[r] = repo.fresh(repo.cl(repo.remote[r]), 'third-party commit on ' + r)
+                    repo.remote[r] = repo.fresh(repo.cl(repo.remote[r]), 'third-party commit on ' + r, parents=[repo.remote[r]])
                     state['log'].append(('advance', r, where, None))
                     break
         else:
